@@ -699,4 +699,55 @@ def rule_h(ctx):
 
 
 
-RULES = [('C13.a', rule_a), ('C13.b', rule_b), ('C13.c', rule_c), ('C13.d', rule_d), ('C13.d+C13.e', rule_e), ('C13.f', rule_f), ('C13.g', rule_g), ('C12.l', rule_error_conversion), ('C13.h', rule_h)]
+
+def rule_i(ctx):
+    """C13.i  An id that has been handed out is in the stream table before control goes back to the application: in
+    every method of the socket that calls the allocator, the allocated value reaches StreamControl.register_stream on
+    every returning path of that same call (directly or through a helper of the class).  The allocator skips only ids
+    it finds in the table, so an id that is allocated now and registered later - at subscribe() - can be handed out a
+    second time once the cursor has gone round.  The one exception is fire-and-forget, which has no responder frames
+    and releases its id when the frame has been written (C10.c)."""
+    rep = ctx.report
+    slots = ctx.slots
+    base = slots.RSocketBase
+    n = 0
+    for name, f in sorted(base.methods.items()):
+        if name in ('_allocate_stream',):
+            continue
+        calls_alloc = [x for x in walk_local(f.node) if isinstance(x, ast.Call) and isinstance(x.func, ast.Attribute)
+                       and x.func.attr in ('_allocate_stream', 'allocate_stream')]
+        if not calls_alloc:
+            continue
+        n += 1
+        if name == 'fire_and_forget':
+            rep.ok('C13.i', 'RSocketBase.fire_and_forget / id released by the sent-callback, never registered', f,
+                   'no frame is ever received on a fire-and-forget stream (C10.c decides the release)')
+            continue
+        ok, detail = True, ''
+        n_paths = 0
+        for p in ctx.paths(f, slots.RSocketServer, inline_depth=2, no_inline={'allocate_stream', 'register_stream'}):
+            if p.outcome != 'return':
+                continue
+            allocs = [e for e in p.events if e.kind == 'call' and e.data.get('name') in ('allocate_stream',)]
+            if not allocs:
+                continue
+            n_paths += 1
+            for a in allocs:
+                v = strip_epoch(a.data['value'].term)
+                regs = [e for e in p.events if e.kind == 'call' and e.data.get('name') == 'register_stream' and
+                        e.seq > a.seq and e.data.get('args') and strip_epoch(e.data['args'][0].term) == v]
+                if not regs:
+                    ok, detail = False, ('the id allocated in %s() is not registered before the call returns: the '
+                                         'allocator can hand it out again while the first stream is still pending' % name)
+                else:
+                    between = [e for e in p.events if e.kind in ('await', 'yield') and a.seq < e.seq < regs[0].seq]
+                    if between:
+                        ok, detail = False, 'the call suspends between allocating the id and registering it'
+        rep.add('C13.i', 'RSocketBase.%s / the allocated id is registered in the same call' % name, f,
+                ok and n_paths > 0, detail or 'allocate_stream() -> register_stream(<that id>, handler) on %d paths' %
+                n_paths)
+    rep.require('C13.i', 'methods of the socket that allocate an id', n, 2)
+
+
+
+RULES = [('C13.a', rule_a), ('C13.b', rule_b), ('C13.c', rule_c), ('C13.d', rule_d), ('C13.d+C13.e', rule_e), ('C13.f', rule_f), ('C13.g', rule_g), ('C12.l', rule_error_conversion), ('C13.h', rule_h), ('C13.i', rule_i)]
